@@ -108,7 +108,7 @@ def run(ctx):
 
     # ---------------- R2 / R3 / R5 from mutation events
     gf = getter_fields(m)
-    ctx.count('getter_arms', len(gf), 30)
+    ctx.count('getter_arms', len(gf), 10)
     protected_fields = set(f for fs in T_PROTECTED.values() for f in fs) | set(OWNER_FIELDS)
     sites = {}
     for e in ai.events:
